@@ -91,6 +91,13 @@ def step(it, v, st):
     """-> [(item or None, v', store')]; raises Undecided for values that are not iterators."""
     if isinstance(v, Ref):
         inner = it.read_ref(st, v)
+        seen = {v}
+        while isinstance(inner, Ref):
+            if inner in seen:
+                raise Undecided("an iterator reference that refers to itself")
+            seen.add(inner)
+            v = inner
+            inner = it.read_ref(st, v)
         outs = []
         for item, inner2, st2 in step(it, inner, st):
             outs.append((item, v, it.write_ref(st2, v, inner2)))
@@ -263,7 +270,7 @@ def step(it, v, st):
         if nm:
             st1, ref = it.fresh_slot(st, v)
             outs = []
-            for kind_, val, st2 in it.call_named(nm, [ref], st1, _depth(it)):
+            for kind_, val, st2 in it.call_named(nm, [ref], st1, _depth(it), skip_std=True):
                 if kind_ != "ret":
                     raise Undecided("next() of %s can panic: %s" % (v.path, val))
                 v2 = it.read_ref(st2, ref)
@@ -500,6 +507,29 @@ def _call(it, name, args, st):
         return [("ret", it_adapt("once", vals[0]), st)]
     if name == "std::iter::empty":
         return [("ret", it_list(()), st)]
+    # ---- equality of Options / tuples of known shape: decided structurally, payloads compared by the domain ------------
+    if (name.endswith(" as std::cmp::PartialEq>::eq") or name.endswith(" as std::cmp::PartialEq>::ne")
+            or name.endswith("PartialEq<&B> for &A>::eq") or name.endswith("PartialEq<&B> for &A>::ne")
+            or name in ("std::cmp::PartialEq::eq", "std::cmp::PartialEq::ne")) and len(vals) == 2:
+        x, y = vals
+        for _ in range(3):
+            x = it.read_ref(st, x) if isinstance(x, Ref) else x
+            y = it.read_ref(st, y) if isinstance(y, Ref) else y
+        if is_opt(x) and is_opt(y):
+            neg = name.endswith("::ne")
+            if x.vi != y.vi:
+                return [("ret", Const(neg), st)]
+            if x.vi == 0:
+                return [("ret", Const(not neg), st)]
+            a, b = x.field(0), y.field(0)
+            for _ in range(3):
+                a = it.read_ref(st, a) if isinstance(a, Ref) else a
+                b = it.read_ref(st, b) if isinstance(b, Ref) else b
+            if a == b and a is not TOP:
+                return [("ret", Const(not neg), st)]
+            r = it.dom.binop("Ne" if neg else "Eq", a, b) if hasattr(it.dom, "binop") else None
+            if r is not None:
+                return [("ret", r, st)]
     # ---- Option / bool helpers not in core.std_call -----------------------------------------------------------------------
     if name.startswith("std::option::Option::<") and is_opt(a0):
         if m == "is_some":
